@@ -71,18 +71,18 @@ def check(run):
     thorough = run.tier == "thorough"
     specs = systematic()
     r = gen.rng_for(run.seed, "c02")
-    for i in range(1500 if thorough else 250):
+    for i in range(4000 if thorough else 700):
         ders = ["EnumString"] + DERIVE_SETS[i % 4] + (["EnumMessage"] if i % 3 else [])
-        gp = (None, None, "T", "N", "Tw") if "IntoStaticStr" in ders else (None, None, "T", "a", "aT", "N", "Tw")
-        specs.append(strgen.build(r, "R%d" % i, ders, generics_pool=gp, n=r.choice([1, 2, 3, 4, 5, 6, 8])))
+        gp = (None, None, "T", "N", "Tw", "Tdef") if "IntoStaticStr" in ders else (None, None, "T", "a", "aT", "N", "Tw", "TNdef")
+        specs.append(strgen.build(r, "R%d" % i, ders, generics_pool=gp, n=r.choice([1, 2, 3, 4, 5, 6, 8]), allow_braces=True))
     units = [shards.Unit("u_" + s.name.lower(), glue(s), meta={"enum_src": s.render()}, sig=s.signature(), head=strgen.CAPTURE_HEAD) for s in specs]
     run.rule = RULE
     samples = standard_flow(run, units, deps["std"], vmon, profiles=("debug",), tag="c02")
     # the same round trip through the use_phf parser (field-less enums, strum built with the phf feature)
     pspecs = []
-    for i in range(400 if thorough else 80):
+    for i in range(1200 if thorough else 200):
         ps = strgen.build(r, "P%d" % i, ["EnumString"] + DERIVE_SETS[i % 4] + ["EnumMessage"], fieldless=True, allow_default=False,
-                          n=r.choice([2, 3, 4, 6, 8]), naming_bias=0.8)
+                          n=r.choice([2, 3, 4, 6, 8]), naming_bias=0.8, allow_braces=True)
         ps.use_phf = True
         pspecs.append(ps)
     punits = [shards.Unit("u_" + s.name.lower(), glue(s), meta={"enum_src": s.render()}, sig="phf," + s.signature(), head=strgen.CAPTURE_HEAD) for s in pspecs]
